@@ -15,5 +15,6 @@ HeadsAll == {HNone, HEmpty, HA}
 NumsAll == {1, 2, 9, 10, 99999}
 NumsBig == {0, 1, 2, 9, 10, 12, 99999}
 WidthsAll == {1, 4, 5}
+WidthsQuick == {1, 4}
 ExtraAll == {XNonInt, XNoSuffix}
 =============================================================================
